@@ -133,7 +133,10 @@ func (m *Machine) fnInfoOf(fn *ssa.Function) *fnInfo {
 	for _, b := range fn.Blocks {
 		fi.instrs += len(b.Instrs)
 	}
-	if k, ok := m.fakeNames[fn]; ok {
+	m.mu.Lock()
+	k, isFake := m.fakeNames[fn]
+	m.mu.Unlock()
+	if isFake {
 		fi.ext = externals[k]
 	} else if fn.Parent() == nil {
 		if ext := externals[fi.name]; ext != nil {
